@@ -109,6 +109,9 @@ def make_inputs(rng, n, fmt, tag):
         with open(os.path.join(d, "Cargo.toml"), "w") as f:
             f.write(toml)
         ldir = os.path.join(d, cfg.get("locales_dir") or "locales")
+        if os.path.abspath(ldir) != os.path.abspath(d) and not os.path.abspath(ldir).startswith(os.path.abspath(d) + os.sep):
+            # a locales-dir pointing outside the project: keep the configuration, write the files inside the project only
+            ldir = os.path.join(d, "locales")
         try:
             for (ns, loc), plain in plains.items():
                 path = os.path.join(ldir, loc + "." + ext) if ns is None else os.path.join(ldir, loc, ns + "." + ext)
